@@ -236,7 +236,7 @@ func (e *ex) verifyOp(t []string) core.Result {
 		if t[1] == "na" {
 			at = e.last.NotAfter
 		}
-		_, verr0 := e.last.Verify(x509.VerifyOptions{Roots: caPool, CurrentTime: at.Add(time.Duration(off) * time.Millisecond)})
+		_, verr0 := e.last.Verify(x509.VerifyOptions{Roots: e.ca().pool, CurrentTime: at.Add(time.Duration(off) * time.Millisecond)})
 		v := "ok"
 		if verr0 != nil {
 			v = verr(verr0)
